@@ -5,3 +5,4 @@ CONSTANTS
   Types = {"hex", "bin", "srec", "elf", "wdc", "uf2"}
 INVARIANT Emit
 INVARIANT EmitCpu
+INVARIANT EmitLink
